@@ -11,10 +11,25 @@
 
 static unsigned g_groups = C10_GROUPS;
 
+// extra base of this property: a duplicate edge that was created BEFORE the edge a face is built on
+enum { C10_B_DUPFIRST = 100 };
+static void c10_build_base(TopologyKernel &m, unsigned base) {
+  if (base == C10_B_DUPFIRST) {   // 3V 4E 1F: E0=(0,1), E1=(0,1) duplicate, E2=(1,2), E3=(2,0), F0 = (E1, E2, E3) i.e. vertices 0,1,2
+    m.add_n_vertices(3);
+    m.add_edge(VH(0), VH(1));
+    EH d = m.add_edge(VH(0), VH(1), true);
+    EH e = m.add_edge(VH(1), VH(2)), f = m.add_edge(VH(2), VH(0));
+    m.add_face(vec3(d.halfedge_handle(0), e.halfedge_handle(0), f.halfedge_handle(0)), true);
+    return;
+  }
+  build_base(m, base);
+}
+
 // entity counts of the base family (= specs.py BASE_COUNTS), to skip out-of-range cases before building anything
 static const unsigned char BASE_N[N_BASES][4] = {{0,0,0,0},{5,5,1,0},{4,6,4,1},{5,9,7,2},{6,11,8,2},{7,12,8,2},{5,9,9,3},{8,12,6,1},{12,20,11,2},{7,12,9,2},{4,5,2,0},{6,12,10,3}};
 static inline unsigned base_op_count(unsigned base, unsigned op) {
-  unsigned nv = BASE_N[base][0], ne = BASE_N[base][1], nf = BASE_N[base][2], nc = BASE_N[base][3];
+  unsigned nv = 3, ne = 4, nf = 1, nc = 0;   // C10_B_DUPFIRST
+  if (base < N_BASES) { nv = BASE_N[base][0]; ne = BASE_N[base][1]; nf = BASE_N[base][2]; nc = BASE_N[base][3]; }
   switch (op) {
   case OP_NONE: return 1;
   case OP_DEL_V: return nv; case OP_DEL_E: return ne; case OP_DEL_F: return nf; case OP_DEL_C: return nc;
@@ -24,13 +39,17 @@ static inline unsigned base_op_count(unsigned base, unsigned op) {
   }
 }
 
+#ifndef C10_PER
+#define C10_PER 4   // cases per query (measured: one case = 25 s (B_LOWDIM) .. 60 s (B_TET) .. 110 s (B_TET2_FACE) of symbolic execution)
+#endif
+
 static __attribute__((noinline)) void do_case(unsigned i) {
   unsigned base = v_param(0), mode = v_param(1), op = v_param(2), chunk = v_param(3);
-  unsigned idx = chunk * CASES_PER_QUERY + i;
-  if (idx >= base_op_count(base, op)) return;
+  unsigned idx = chunk * C10_PER + i;
+  if (i >= C10_PER || idx >= base_op_count(base, op)) return;
   TopologyKernel m;
   set_mode(m, mode);
-  build_base(m, base);
+  c10_build_base(m, base);
   if (op != OP_NONE) {
     V_ASSERT(base_op_count(base, op) == op_arity_count(m, op));   // harness self-check of the table
     unsigned a, b; op_decode(m, op, idx, a, b);
@@ -44,12 +63,12 @@ static __attribute__((noinline)) void do_case(unsigned i) {
 static inline void run_groups(unsigned groups) {
   g_groups = groups;
   unsigned sel = v_nondet_u32();
-  v_assume(sel < CASES_PER_QUERY);
-  dispatch<Case, CASES_PER_QUERY>(sel);
+  v_assume(sel < C10_PER);
+  dispatch<Case, C10_PER>(sel);
 }
 
 extern "C" void harness_c10() { run_groups(C10_GROUPS); }
 // split by lookup family (same cases; smaller queries)
-extern "C" void harness_c10_edges() { run_groups(G_HE | G_HE_CELL | G_INC | G_NVC); }
-extern "C" void harness_c10_faces() { run_groups(G_HF_HES | G_HF_VS | G_HF_EXT | G_HF_CELL); }
-extern "C" void harness_c10_hfv() { run_groups(G_HFV); }
+extern "C" void harness_c10_a() { run_groups(G_HE | G_HE_CELL | G_HF_HES | G_HF_CELL | G_HFV | G_INC | G_NVC); }
+extern "C" void harness_c10_b() { run_groups(G_HF_VS); }
+extern "C" void harness_c10_c() { run_groups(G_HF_EXT); }
